@@ -21,11 +21,11 @@ RULE = ("(a) header/frame codec: every 12-bit origin and destination, ids incl. 
         "of the reference frames and a True result requires that the receiver accepted all of "
         "them. Non-trivial: bytes were compared; distinct = distinct (part, length, type, "
         "field class).")
-RULE += (" Later rounds added: traffic_direct writes, one-character string types, re-used and re-addressed headers, loop-back frames, kept bytearray messages re-sent with frames received in between, outages at a chosen fragment.")
+RULE += (" Later rounds added: traffic_direct writes, one-character string types, re-used and re-addressed headers, loop-back frames, kept bytearray messages re-sent with frames received in between, outages at a chosen fragment, kept buffers edited in place before being sent again, frames forwarded to a child after a completed or an abandoned fragment train.")
 REQUIRED = {"pack_bytes": 10000, "unpack_roundtrip": 10000, "short_buffer_refused": 50,
             "onair_frames_vs_reference": 200, "tmrh_reassembly": 200, "caller_header_type": 200,
             "caller_header_type_routed": 10, "session_frames_vs_reference": 1000,
-            "result_vs_accepted_frames": 800}
+            "result_vs_accepted_frames": 800, "forwarded_frame_unchanged": 200}
 BUDGET = {"quick": 480, "thorough": 900}
 
 
@@ -57,6 +57,7 @@ def gen_sessions(ctx):
     short after long, and an outage of 5..120 ms that begins with the first attempt of one
     fragment (so that it is rescued by the first, second or third software retry, or lost)"""
     rng = ctx.sub_rng("c11s")
+    rng2 = ctx.sub_rng("c11s2")  # later additions draw from their own stream
     for i in range(900 if ctx.tier == "quick" else 40000):
         msgs = []
         for k in range(rng.randrange(2, 5)):
@@ -81,6 +82,12 @@ def gen_sessions(ctx):
             if msgs and msgs[-1].get("bytearray") and how in ("send", "write") and msgs[-1]["how"] in ("send", "write") \
                     and rng.random() < 0.35:
                 mm.update(rebuf=True, bytearray=True, len=msgs[-1]["len"])
+            if mm.get("rebuf") and rng2.random() < 0.6:
+                mm["edit"] = True  # the application writes new content into the buffer it kept
+                msgs[-1]["incoming_after"] = msgs[-1]["incoming_after"] and rng2.random() < 0.3
+            if how in ("send", "write") and rng2.random() < 0.35:
+                # a frame for the child 0o11 arrives afterwards and is forwarded (length, type)
+                mm["forward_after"] = [rng2.choice([0, 1, 10, 24]), rng2.choice([5, 64, 33])]
             msgs.append(mm)
         outage = None
         uni = [j for j, mm in enumerate(msgs) if mm["how"] in ("send", "write")]
@@ -140,6 +147,9 @@ def run_session(ctx, case):
             msg = bytes((n * 3 + i * 7 + t + j) & 0xFF for i in range(n))
             if mm.get("rebuf") and kept is not None:
                 msg_obj, msg = kept  # the same object again; its content is what the application put there
+                if mm.get("edit"):
+                    msg = bytes(((b ^ 0x5A) + j + i) & 0xFF for i, b in enumerate(msg))
+                    msg_obj[:] = msg
             else:
                 msg_obj = bytearray(msg) if mm.get("bytearray") else msg
             st["cur"], st["seen"] = j, []
@@ -195,6 +205,28 @@ def run_session(ctx, case):
             node.idle(3 * W.MS)
             if how in ("send", "write"):
                 kept = (msg_obj, msg) if isinstance(msg_obj, bytearray) else None
+                if mm.get("forward_after"):
+                    # a frame for the child arrives: what goes on air is that frame, unchanged, once
+                    fl, ft = mm["forward_after"]
+                    fwd = net_ref.pack_header(0, 0o11, 700 + j, ft, 0) + bytes((fl + i * 5 + j) & 0xFF for i in range(fl))
+                    air_in, ack_in = len(rig.air.log), len(ph.acked)
+                    st["cur"] = None
+                    radio.inject_rx(1, fwd)
+                    obj.update()
+                    node.idle(3 * W.MS)
+                    onair = _collapse([bytes(p.payload) for p in rig.air.log[air_in:] if p.kind == "data"])
+                    ctx.clause("forwarded_frame_unchanged")
+                    if onair != [fwd] or obj.available():
+                        ctx.violation("forwarded-frame-altered", "a %d-byte type-%d frame for the child 0o11 arriving "
+                                      "after message %d (%s, %d bytes, returned %r%s): on air %r, expected the frame "
+                                      "itself (%s); queued for the application: %r"
+                                      % (fl, ft, j, how, n, ret, ", outage %r" % out if out and out["msg"] == j else "",
+                                         [x.hex() for x in onair], fwd.hex(), bool(obj.available())), case)
+                        return
+                    ctx.count("forwarded_after_%s" % ("failed" if ret is not True else "ok"))
+                    del rig.air.log[air_in:]
+                    del ph.acked[ack_in:]
+                    st["cur"] = j
                 if mm.get("incoming_after"):
                     # traffic arrives for the node between two of its own transmissions
                     air_in = len(rig.air.log)
